@@ -3,7 +3,7 @@
 // Messages come from the shared MIME-tree generator (internal/gen/mime), so every part, header and field of a message
 // is known by construction. They are APPENDed over the wire or delivered through the connector to a real server
 // (internal/bed); FETCH / UID FETCH commands with drawn data items are then judged by byte-exact relations between
-// what was appended and what comes back (oracle.go: func (m *msg) expect).
+// what was appended and what comes back (oracle_test.go: func (m *msg) expect).
 package c13
 
 import (
@@ -12,7 +12,7 @@ import (
 	"verif/internal/ev"
 )
 
-const rule = "one case = one generated message with all FETCH commands issued on it (ev.Case once per message); " +
+const rule = "one case = one generated message with all FETCH commands issued on it (ev.Case once per message; a small companion message that some cases store first, to fetch two messages at once, belongs to the case); " +
 	"non-trivial: the message has >= 2 MIME levels or is larger than 256 KiB, and at least one partial <o.n> or " +
 	"HEADER.FIELDS / HEADER.FIELDS.NOT item was fetched on it; distinct by hash of the message bytes and the commands"
 
